@@ -40,6 +40,7 @@ func main() {
 	repo := flag.String("repo", "/repo", "repository root")
 	out := flag.String("out", "", "output directory for rewritten files and overlay.json")
 	shim := flag.String("shim", "", "directory with shim packages (vmap, vsync)")
+	export := flag.String("export", "", "directory mirroring the repo layout with add-only files (constructors for types whose fields are unexported)")
 	pkgs := flag.String("pkgs", "./internal/...,./apis/...,./cmd/crossplane/...", "package patterns")
 	syncFiles := flag.String("sync", "", "comma separated repo-relative files whose sync import and go statements are shimmed")
 	flag.Parse()
@@ -179,6 +180,22 @@ func main() {
 		overlay[filepath.Join(*repo, "internal", "verifshim", rel)] = pth
 		return nil
 	})
+	// Add-only export files: <export>/<repo-relative dir>/zz_verif_*.go are
+	// added to that package (never replacing a repo file).
+	if *export != "" {
+		_ = filepath.Walk(*export, func(pth string, info os.FileInfo, err error) error {
+			if err != nil || info.IsDir() || !strings.HasSuffix(pth, ".go") {
+				return nil
+			}
+			rel, _ := filepath.Rel(*export, pth)
+			dst := filepath.Join(*repo, rel)
+			if _, err := os.Stat(dst); err == nil {
+				panic("export file would replace a repository file: " + dst)
+			}
+			overlay[dst] = pth
+			return nil
+		})
+	}
 	_ = token.NoPos
 	sort.Strings(sites)
 	ov, _ := json.MarshalIndent(map[string]any{"Replace": overlay}, "", " ")
